@@ -81,6 +81,7 @@ pub fn case(seed: u64, st: &mut Stats) {
     let mut rng = Rng::new(seed);
     let mut o = ConvOpts::full();
     o.required = rng.coin();
+    o.hyphen_pos = true;
     let mut spec = conv_cmd(&mut rng, &o);
     if rng.coin() {
         spec.set(Setting::InferLongArgs);
@@ -161,7 +162,9 @@ pub fn case(seed: u64, st: &mut Stats) {
     // ambiguity probes at the root level
     let names = long_targets(&spec);
     let amb = ambiguous_prefixes(&names, &exact_longs(&spec));
-    for p in amb.iter().take(6) {
+    // (an unknown long in front of a positional that allows hyphen values is that positional's value)
+    let root_hyphen_pos = spec.args.iter().any(|a| a.is_positional() && a.allow_hyphen);
+    for p in amb.iter().take(if root_hyphen_pos { 0 } else { 6 }) {
         for form in 0..2 {
             let tok = if form == 0 { format!("--{}", p) } else { format!("--{}=v", p) };
             st.eval();
